@@ -320,6 +320,22 @@ pub fn run(ctx: &mut Ctx) {
             check_intended(ctx, &path, &text, name);
         }
         ctx.sample(|| plain_text.clone());
+        if i % 499 == 7 {
+            // a quoted name and a string literal with hundreds of escapes / hundreds of bytes
+            let n = *rng.pick(&[255usize, 256, 257, 300, 512]);
+            let esc: String = (0..n).map(|_| *rng.pick(&['\n', '"', '\\', '\t', '\u{1}'])).collect();
+            let long: String = (0..n).map(|k| (b'a' + (k % 26) as u8) as char).collect();
+            for (nm, lit) in [(esc.clone(), long.clone()), (long, esc)] {
+                let p = JPath::Steps(vec![
+                    Step::Name(nm, refpath::NameStyle::Bracket),
+                    Step::Filter(Box::new(Expr::Cmp(refpath::Cmp::Eq, Operand::Path(false, vec![]), Operand::Lit(Lit::Str(lit))))),
+                ]);
+                for (name, st) in styles.iter() {
+                    let text = refpath::render(&p, st, &mut rng);
+                    check_intended(ctx, &p, &text, name);
+                }
+            }
+        }
         if i % 2 == 0 {
             raw_inputs(ctx, &mut rng, &plain_text);
         }
